@@ -34,7 +34,7 @@ def setup_worker(tier=None):
 def cases(tier, seed):
   out = []
   q = tier == 'quick'
-  n = 48 if q else 600
+  n = 48 if q else 3000
   for i in range(n):
     r = rng_for('c12', seed, i)
     name = 'LSML_Supervised' if i % 4 == 3 else 'LSML'
